@@ -227,6 +227,9 @@ class BaseSpec:
     def generator_call(self, I, f, env):
         raise OutsideSubset(f"generator function {f.qual}")
 
+    def on_yield(self, I, v, env):
+        raise OutsideSubset("yield")
+
     def with_enter(self, I, cm):
         raise OutsideSubset("with statement")
 
